@@ -190,7 +190,8 @@ def run(tier):
         "model_checking",
         "every (alias, len, cap, need) shape reached by the small model MC_AEADBuf, concretised for Seal and Open "
         "(authentic and forged) over message-length classes of the kernel ladder, each call repeated on the same "
-        "buffers, byte-for-byte snapshots of nonce/aad/input after the call; Sum with and without spare capacity; TLC "
+        "buffers, byte-for-byte snapshots of nonce/aad/input after the call, every dst prefix length 0..72 and around "
+        "powers of two on the reallocating and the in-place path, inputs carved from one buffer; Sum with and without spare capacity; TLC "
         "requires result = dst || output, inputs unchanged (exact in-place overlap excepted), repeat = first answer",
         ["TLC; GCM/SM4/SM3 specs validated by published vectors on every run",
          "same-array reuse is recorded but not demanded (the property asks for the appended value)",
